@@ -303,9 +303,10 @@ pub fn gen_packets(r: &mut Rng) -> String {
     for _ in 0..r.range(4, 14) {
         let src_port = if r.chance(1, 5) { 40000 } else { 5353 };
         let pkt = match r.below(8) {
-            0 | 1 => hex(&crate::c01::gen_grammar(r)),
+            0 => hex(&crate::c01::gen_grammar(r)),
+            1 => hex(&if r.chance(1, 2) { crate::c01::gen_grammar(r) } else { crate::c01::gen_tail(r) }),
             2 => hex(&crate::c01::gen_valid(r)),
-            3 => hex(&if r.chance(1, 2) { crate::c01::gen_pointer_shapes(r) } else { crate::c01::gen_tail(r) }),
+            3 => hex(&if r.chance(1, 4) { crate::c01::gen_pointer_shapes(r) } else { crate::c01::gen_tail(r) }),
             4 => {
                 // wire labels that merge / grow when the unescaped name is encoded again:
                 // a label ending in a backslash, labels with dots, 63-byte labels
